@@ -9,7 +9,9 @@ package relay
 import (
 	"fmt"
 	"net"
+	"os"
 	"sort"
+	"strconv"
 	"strings"
 	"testing"
 	"testing/synctest"
@@ -665,7 +667,10 @@ func c11Histories(t *testing.T) {
 	}
 	depth := 4
 	if vrep.Thorough() {
-		depth = 5
+		depth = 6
+	}
+	if v, err := strconv.Atoi(os.Getenv("VERIF_C11_DEPTH")); err == nil && v > 0 {
+		depth = v // development aid
 	}
 	r.Bounds["depth"] = depth
 	r.Bounds["alphabet"] = "Reserve(c@addr) for every address of every client (a second RESERVE of the same client is a refresh, from the same or another IP); Connect(src@addr->dst) for every ordered pair; CloseCircuit(src->dst); Disconnect(c) = all its connections close; DropConn(c@addr) = one of several connections closes; Advance(ReservationTTL+1s); Advance(1m) = one collection period; CloseRelay"
